@@ -102,6 +102,31 @@ def cases(tier, rng):
                 ops += ["wire b"]
                 out.append("i%d sock %s / %s" % (k, sock, " / ".join(ops)))
                 k += 1
+    # delivery iff a subscription is a prefix ALSO while other subscribers' connections stall, accept part of a write or
+    # break (the fan-out family of C12, judged here for who gets what): a subscriber whose connection accepts everything
+    # gets exactly the messages that matched one of its subscriptions at that time
+    from . import c12
+    fam = c12.fan_cases("quick", rng, k)
+    out += fam
+    k += len(fam) + 1
+    # several subscribers to everything, some of whose connections are broken (which the publisher notices on its own
+    # write once the write mark is reached and then forgets them): the others miss nothing, before, at and after that moment
+    for sock in ("PUB", "XPUB"):
+        for rep in range(8 if tier == "quick" else 60):
+            names = "abcde"[: rng.randint(3, 5)]
+            dead = rng.sample(names, rng.randint(1, len(names) - 1))
+            ops = ["attach %s SUB" % c for c in names]
+            for c in names:
+                ops += ["feed %s 000101" % c] + (["settle"] if sock == "PUB" else ["recv"])
+            ops += ["wmode %s broken=BrokenPipe" % c for c in dead]
+            for i in range(3):
+                ops.append("send %02x+r70000.%02x" % (0x41 + i, 0x61 + i))
+            for i in range(4):
+                ops.append("send %02x%02x" % (0x4d, 0x30 + i))
+            for c in names:
+                ops += ["wire " + c, "dropped " + c]
+            out.append("f%d sock %s / %s" % (k, sock, " / ".join(ops)))
+            k += 1
     return out
 
 
@@ -109,13 +134,28 @@ def compare_filter(line):
     return not line.split()[0].startswith("i")      # the model assumes distinct identities
 
 
+def model_cases(case_lines):
+    from . import c12
+    return c12.model_cases(case_lines)
+
+
 def norm_impl(o, line):
+    if line.startswith("f"):
+        from . import c12
+        return c12.norm_impl(o, line)
     return S.canon_impl(o, line)
+
+
+def norm_model(o, line):
+    return o if line.startswith("f") else S.canon_impl(o, line)
 
 
 def judge(line, obs, orc):
     if S.bad_obs(obs):
         return "implementation " + str(obs)[:80]
+    if line.startswith("f"):
+        from . import c12
+        return c12.fan_judge(line, obs)
     t, po = S.pair_ops_obs(line, obs)
     if line.split()[0].startswith("i"):
         got = [tk for op, tk in po if op[0] == "wire" and op[1] == "b"][0].split("=", 1)[1]
@@ -191,4 +231,3 @@ def classify(line, what):
     return "c11-" + line.split()[2].lower()
 
 
-norm_model = norm_impl
